@@ -36,7 +36,7 @@ def build(flavour="plain"):
 os.environ.setdefault("FSIM_EXTRA_CORPUS", os.path.join(VERIF, "fsim", "corpus"))
 
 REAL = ["sbeppc: main.cpp and every header it includes, compiled from /repo's working tree with -Dmain=sbeppc_main and asserts enabled", "libstdc++ fstream / std::filesystem", "pugixml", "fmt"]
-STUB = ["file-system namespace and the outcome of fopen64/fclose/read/write/writev/lseek64/mkdir/stat/lstat (SimFS over memfd)", "stored bytes of the input files (storage faults)", "argv", "heap layout before a run (seeded fragmentation)", "exit() and __assert_fail (interposed to classify outcomes)", "operator new / operator delete during a run (plain build only): fresh blocks filled with 0xCD, released blocks filled with 0xDD and quarantined, so that uninitialised or dangling heap reads become visible in outputs"]
+STUB = ["file-system namespace and the outcome of fopen64/fclose/read/write/writev/lseek64/mkdir/stat/lstat (SimFS over memfd)", "stored bytes of the input files (storage faults)", "argv", "heap layout before a run (seeded fragmentation)", "exit() and __assert_fail (interposed to classify outcomes)", "the wall clock (time, clock_gettime(CLOCK_REALTIME), gettimeofday: simulated time, moved by `clock` ops of the plan), getcwd/realpath/readlink", "process boundaries of C20: every sbeppc run, reference runs included, happens in a forked child of a worker that never executes sbeppc code itself (fresh statics per run); outcome, file tree and statistics come back through a pipe", "operator new / operator delete during a run (plain build only): fresh blocks filled with 0xCD, released blocks filled with 0xDD and quarantined, so that uninitialised or dangling heap reads become visible in outputs"]
 
 
 def info(binary, tier):
